@@ -58,13 +58,15 @@ def spec_steps(ctx: Ctx, inp: dict, steps) -> None:
             ac.spec_c02_step(ctx, inp, idx, op, before, after, error)
 
 
-def flush(ctx: Ctx, pending: list) -> None:
+def flush(ctx: Ctx, pending: list, selftest: bool = False) -> None:
     replies = ctx.model([r for (_, _, r, _) in pending])
     if replies is None:
         ctx.notes.append("model driver unavailable: correspondence not run")
         return
     for (inp, segs, _, sq), rep in zip(pending, replies):
         ac.compare(ctx, inp, segs, rep, sq)
+    if selftest:
+        ac.tie_filter_selftest(ctx, pending)      # raises (infrastructure error) if the tie filter is not sound
 
 
 def run(ctx: Ctx) -> None:
@@ -83,7 +85,7 @@ def run(ctx: Ctx) -> None:
         replay_input(ctx, s, pending)
     for i in range(n):
         one(ctx, ctx.rng, "Q" if i % 2 == 0 else "F", pending, spec_steps)
-    flush(ctx, pending)
+    flush(ctx, pending, selftest=True)
     ac.pysum_stream(ctx, ctx.n(300, 3000))
 
 
